@@ -87,6 +87,13 @@ func (bucket *Bucket) CloseAndDelete(ctx context.Context) (err error) {
 	return deleteBucket(ctx, bucket)
 }
 
+// Closes the bucket's database handle, feeds and timer, leaving its data where it is.
+func (bucket *Bucket) closeWithoutDeleting() {
+	bucket.mutex.Lock()
+	defer bucket.mutex.Unlock()
+	bucket._closeSqliteDB()
+}
+
 func (bucket *Bucket) IsSupported(feature sgbucket.BucketStoreFeature) bool {
 	switch feature {
 	case sgbucket.BucketStoreFeatureCollections:
